@@ -127,6 +127,16 @@ def w_enum(acc, L, prefix):
     harness.run_cases(acc, "split", o_split, it, distinct_by_construction=True)
 
 
+FRAMES = ["x and {%s and y} and z", "x and %s and z", "{%s} and z", "%s and {y and z}", "Ab~%s and y"]
+
+
+def w_frames(acc, L, prefix):
+    for t in tokens.seqs(tokens.SIGMA_A, L, prefix, tokens.SIGMA_A_SKIP):
+        mid = "".join(t)
+        for fr in FRAMES:
+            acc.run("split", o_split, fr % mid, True)
+
+
 def _strategies():
     from hypothesis import strategies as st
 
@@ -188,6 +198,8 @@ def run(chk):
     quick = chk.tier == "quick"
     max_len = 5 if quick else 6
     tasks = [("w_enum", t) for t in tokens.seq_tasks(tokens.SIGMA_A, max_len)]
+    frame_len = 3 if quick else 4
+    tasks += [("w_frames", t) for t in tokens.seq_tasks(tokens.SIGMA_A, frame_len, prefix_len=1)]
     n_rand = 12000 if quick else 400000
     shards = 8 if quick else 32
     for s in range(shards):
@@ -198,6 +210,7 @@ def run(chk):
         f"(sequences with an adjacent token pair in {sorted(tokens.SIGMA_A_SKIP)!r} are skipped because they spell "
         f"the same string as a shorter sequence): {tokens.count_seqs(tokens.SIGMA_A, max_len)} sequences before skipping"
     )
+    chk.acc.exhaustive["and-frames"] = f"every token sequence of length <= {frame_len} placed in each of the frames {FRAMES!r}"
     chk.rule = (
         "inputs = strings. Engine E: every token sequence up to the bound (distinct strings by construction); engine R: "
         "Hypothesis author lists of 1-40 names with random separators/case/noise tokens, and entries for the "
